@@ -37,6 +37,7 @@ SYM = [
     ("def", "2nd", ""), ("ref", ["2nd", "b"]),  # a label that merely STARTS with digits is a named (auto-numbered) label
     ("refx", ["a"]), ("refx", ["b", "a"]),  # references inside directive content that the directive DISCARDS (figure with a list as caption): they are not references
     ("reft", ["b"]), ("reft", ["a", "b"]),  # references in a directive TITLE (parsed by the mock inliner)
+    ("refa", ["a"]), ("refa", ["b", "a"]),  # references directly followed by an attribute block (attrs_inline): still references
 ]
 SYM_SMALL = [0, 1, 2, 4, 6, 7, 8, 12, 13, 16, 29]
 BULLETS = "-*+"
@@ -47,6 +48,8 @@ def text_of(seq):
     for i, s in enumerate(seq):
         if s[0] == "ref":
             out.append(f"P{i} " + " ".join(f"[^{l}]" for l in s[1]))
+        elif s[0] == "refa":
+            out.append(f"P{i} " + " ".join(f"[^{l}]{{.cite}}" for l in s[1]))
         elif s[0] == "refd":
             out.append("```{note}\n" + f"P{i} " + " ".join(f"[^{l}]" for l in s[1]) + "\n```")
         elif s[0] == "refx":
@@ -76,7 +79,7 @@ def model(seq, sort):
                 defs.append((s[1], i))
                 if s[2] == "n":
                     dups += 1  # (the body of a dropped duplicate is not rendered: its nested duplicate is never met)
-    refs = [(l, i) for i, s in enumerate(seq) if s[0] in ("ref", "refd", "reft") for l in s[1]]
+    refs = [(l, i) for i, s in enumerate(seq) if s[0] in ("ref", "refd", "reft", "refa") for l in s[1]]
     manual = {l for l, _ in defs if l.isdigit()}
     autos = [l for l, _ in defs if not l.isdigit()]
     order = []
@@ -101,7 +104,7 @@ def model_structure(seq, sort, trans, num, defs):
     kept = {i for _, i in defs}
     out = []
     for i, s in enumerate(seq):
-        if s[0] == "ref":
+        if s[0] in ("ref", "refa"):
             out.append(("paragraph",))
         elif s[0] == "refd":
             out.append(("note",))
@@ -167,7 +170,7 @@ class FootnoteSystem(System):
         idx, sort, trans = case
         seq = [SYM[i] for i in idx]
         text = text_of(seq)
-        doc, warn = docutils_doctree(text, {"myst_footnote_sort": sort, "myst_footnote_transition": trans})
+        doc, warn = docutils_doctree(text, {"myst_footnote_sort": sort, "myst_footnote_transition": trans, "myst_enable_extensions": ["attrs_inline"]})
         return evaluate(seq, sort, trans, text, doc, warn, "docutils")
 
 
@@ -216,7 +219,7 @@ def evaluate(seq, sort, trans, text, doc, warn, front_end):
         paras = {p.astext().split()[0]: p for p in doc.findall(lambda n: isinstance(n, (nodes.paragraph, nodes.title))) if p.astext().startswith("P")}
         backrefs = {l: [] for l in num}
         for i, s in enumerate(seq):
-            if s[0] not in ("ref", "refd", "reft"):
+            if s[0] not in ("ref", "refd", "reft", "refa"):
                 continue
             p = paras.get(f"P{i}")
             if p is None:
@@ -257,7 +260,7 @@ def evaluate(seq, sort, trans, text, doc, warn, front_end):
         # structure
         ms = model_structure(seq, sort, trans, num, defs)
         os_ = structure(doc)
-        fn_only = all(t[0] in ("fn", "tr") for t in os_) or not any(s[0] in ("ref", "refd", "refx", "reft") or s[2] in "ql" for s in seq)
+        fn_only = all(t[0] in ("fn", "tr") for t in os_) or not any(s[0] in ("ref", "refd", "refx", "reft", "refa") or s[2] in "ql" for s in seq)
         if sort and set(onum) == set(num):
             # labels of equal numeric value ('02' and an automatic '2') may come in either order
             def tie_norm(lst):
